@@ -33,7 +33,7 @@ EXPLANATION = (
     'reads the command line before deleting, restores in a finally inside the temporary directory scope; R4b in read_cmd_line_file the mapping assigned to options.cmd_line_options is merged from the recorded table and the current options with the current ones last (highest priority); R5a-c the option file '
     'handed to OptionInterpreter.process for a subproject is its recorded file / depends on per-subproject data, and the same '
     'subproject key is used for the interpreter, the store update and the recorded hash. '
-    'R2d the object installed for a redeclared option gets the parent link (parent/yielding) that add_project_option gives a new one; R5d every normal path of _load_option_file calls update_project_options for self.subproject, with no declarations when there is no option file. R6 in Environment every option writer fed from self.options (the initial sources) is unreachable when first_invocation is false. Does NOT decide agreement with a reference model over command histories, nor what set_user_option/set_value accept.')
+    'R2d the object installed for a redeclared option gets the parent link (parent/yielding) that add_project_option gives a new one; R5d every normal path of _load_option_file calls update_project_options for self.subproject, with no declarations when there is no option file. R6 in Environment every option writer fed from self.options (the initial sources) is unreachable when first_invocation is false. R4c every [properties] key read_cmd_line_file restores into options.K is recorded by write_cmd_line_file exactly when options.K is set (all worlds); R4d in MesonApp._generate the options object handed to Interpreter is dominated by read_cmd_line_file on it (or every caller merges into self.options). Does NOT decide: what set_option/set_value do with a value (e.g. whether set_option detaches a yielding option only when the value changes - C07 owns set_option); agreement with a reference model over command histories, nor what set_user_option/set_value accept.')
 ASSUMPTIONS = [
     'OptionStore.set_option(key, v) validates and stores v on the object currently in self.options[key]',
     'UserOption.set_value raises MesonException (and keeps the previous value) for an invalid value',
@@ -491,11 +491,12 @@ def _statement_forms(fn: ast.AST) -> None:
                 new = [ast.AugAssign(target=ast.Name(id=st.body[0].targets[0].id, ctx=ast.Store()), op=ast.BitOr(), value=st.test)]
             elif isinstance(st, (ast.Assign, ast.AnnAssign)) and isinstance(getattr(st, 'value', None), ast.IfExp) \
                     and (isinstance(st, ast.AnnAssign) or len(st.targets) == 1) \
-                    and isinstance(st.targets[0] if isinstance(st, ast.Assign) else st.target, ast.Name):
+                    and attr_chain(st.targets[0] if isinstance(st, ast.Assign) else st.target) is not None:
                 tgt = st.targets[0] if isinstance(st, ast.Assign) else st.target
                 v = st.value
-                if not (attr_chain(v.body) is not None and attr_chain(v.orelse) is not None and not isinstance(v.body, ast.Name)):   # callee selection is handled separately
-                    mk = lambda val: ast.Assign(targets=[ast.Name(id=tgt.id, ctx=ast.Store())], value=val)  # noqa: E731
+                callee_sel = isinstance(tgt, ast.Name) and attr_chain(v.body) is not None and attr_chain(v.orelse) is not None and not isinstance(v.body, ast.Name)
+                if not callee_sel and not (names_in(tgt) & names_in(v.test)):   # callee selection is handled separately
+                    mk = lambda val: ast.Assign(targets=[copy.deepcopy(tgt)], value=val)  # noqa: E731
                     new = [ast.If(test=v.test, body=[mk(v.body)], orelse=[mk(v.orelse)])]
             elif isinstance(st, ast.If):
                 w = [n for n in ast.walk(st.test) if isinstance(n, ast.NamedExpr)]
@@ -1421,8 +1422,9 @@ def r1b(ctx: RuleCtx) -> None:
     # the updated table is written back after the loop
     cfg = CFG(fn)
     it = [n for n in cfg.nodes if n.kind == 'iter' and n.ast is loop]
-    wr = cfg.nodes_with_call(lambda c: call_method(c) != 'read' and (cfgs[0] in {a.id for a in c.args if isinstance(a, ast.Name)}
-                                                                      or (isinstance(c.func, ast.Attribute) and norm(c.func.value) == cfgs[0] and c.func.attr == 'write')))
+    readers = ('read', 'read_file', 'read_string', 'has_section', 'has_option', 'get', 'items', 'keys', 'values', 'sections', 'options')
+    wr = cfg.nodes_with_call(lambda c: call_method(c) not in readers and (cfgs[0] in {a.id for a in c.args if isinstance(a, ast.Name)}
+                                                                          or (isinstance(c.func, ast.Attribute) and norm(c.func.value) == cfgs[0])))
     wr = [n for n in wr if n.ast is not loop and it and cfg.can_reach(it[0], n)]
     ctx.require(bool(wr) and all(cfg.must_pass(i, cfg.exit_return, wr) for i in it), f'{qn}: the updated table is written back after the loop', mod, qn,
                 'write-back after the recording loop', 'after the recording loop the function can return without writing the updated table', loop)
@@ -1545,6 +1547,9 @@ def _r2_walk(qn: str, body: T.List[ast.stmt], p: paths.Path, pm: T.Dict[ast.AST,
                     out.acts.append(('remove', st))
                     continue
                 if cn == 'self.__repoint__':
+                    if args[:2] == ['OLD', 'NEW'] and len(args) == 3:
+                        out.acts.append(('wire NEW: repoint-wrong ' + args[2], st))      # the loop was read completely and a row is wrong
+                        continue
                     if args == ['OLD', 'NEW']:
                         out.acts.append(('wire NEW: repoint-children', st))
                         continue
@@ -1566,39 +1571,63 @@ def _r2_walk(qn: str, body: T.List[ast.stmt], p: paths.Path, pm: T.Dict[ast.AST,
 
 
 def _repoint_loops(block: T.List[ast.stmt]) -> None:
-    """`for o in self.options.values(): if o.parent is E: o.parent = F`  ->  the single effect `self.__repoint__(E, F)`."""
+    """A loop over the stored options whose body, read as a decision table over the atoms `x.parent is E` and
+    `type(x) is type(F)`, re-links every child of E to F (optionally only a child of F's class, any other child of E being
+    detached: `x.parent = None; x.yielding = False`) and touches nothing else  ->  the single effect `self.__repoint__(E, F)`.
+    The table makes the reading independent of nesting, guard clauses, named conditions and conditional expressions."""
     for blk in _blocks(block):
         for i, st in enumerate(blk):
-            if not (isinstance(st, ast.For) and not st.orelse and len(st.body) == 1 and isinstance(st.body[0], ast.If)):
+            if not (isinstance(st, ast.For) and not st.orelse):
                 continue
             it = st.iter
             x = None
-            if isinstance(it, ast.Call) and norm(it.func) == 'self.options.values' and isinstance(st.target, ast.Name):
+            if isinstance(it, ast.Call) and norm(it.func) in ('self.options.values', 'list') and norm(it).replace('list(', '').rstrip(')') .startswith('self.options.values(') \
+                    and isinstance(st.target, ast.Name):
                 x = st.target.id
             elif isinstance(it, ast.Call) and norm(it.func) == 'self.options.items' and isinstance(st.target, ast.Tuple) and len(st.target.elts) == 2 \
                     and isinstance(st.target.elts[1], ast.Name):
                 x = st.target.elts[1].id
-            iff = st.body[0]
-            if x is None or iff.orelse or len(iff.body) != 1:
+            if x is None or any(isinstance(n, (ast.For, ast.While, ast.With, ast.Try, ast.Return, ast.Break)) for b in st.body for n in ast.walk(b)):
                 continue
-            a, v = tables.canon(iff.test, True)
-            asg = iff.body[0]
-            if isinstance(asg, ast.If) and len(asg.body) == 1 and isinstance(asg.body[0], ast.Assign) and len(asg.body[0].targets) == 1 \
-                    and norm(asg.body[0].targets[0]) == f'{x}.parent':
-                # class-tested form: re-link only a child of the same class as the new object, otherwise detach it
-                # (`x.parent = None; x.yielding = False`, the rule _link_to_parent applies to a parent of another type)
-                new_e = norm(asg.body[0].value)
-                ta, tv = tables.canon(asg.test, True)
-                same = ta.kind == 'is' and tv and set(ta.args) == {f'type({x})', f'type({new_e})'}
-                detach = sorted(norm(d) for d in asg.orelse)
-                if same and detach == sorted([f'{x}.parent = None', f'{x}.yielding = False']):
-                    asg = asg.body[0]
-            if a.kind == 'is' and v and f'{x}.parent' in a.args and isinstance(asg, ast.Assign) and len(asg.targets) == 1 and norm(asg.targets[0]) == f'{x}.parent':
-                other = [t for t in a.args if t != f'{x}.parent']
-                if len(other) == 1:
-                    blk[i] = ast.fix_missing_locations(ast.copy_location(ast.Expr(value=ast.Call(
-                        func=ast.Attribute(value=ast.Name(id='self', ctx=ast.Load()), attr='__repoint__', ctx=ast.Load()),
-                        args=[ast.parse(other[0], mode='eval').body, asg.value], keywords=[])), st))
+            try:
+                tab = _ptable(_renamed(st.body, {x: 'X'}), _r1_eff, name='re-pointing loop')
+            except Undecided:
+                continue
+            links = {e.split(' := ', 1)[1] for r in tab.rows for ee in r.effects for e in ee.split('; ')
+                     if e.startswith('SET X.parent := ') and not e.endswith(':= None')}
+            olds = {t for a in tab.atoms() if a.kind == 'is' and 'X.parent' in a.args for t in a.args if t != 'X.parent'}
+            if len(links) != 1 or len(olds) != 1:
+                continue
+            new_e, old_e = next(iter(links)), next(iter(olds))
+            read = True          # every atom and effect of the loop body is in the vocabulary
+            wrong: T.List[str] = []
+            for r in tab.rows:
+                is_old = same = None
+                for a, v in r.conds.items():
+                    if a.kind == 'is' and set(a.args) == {'X.parent', old_e}:
+                        is_old = v
+                    elif a.kind == 'is' and set(a.args) == {'type(X)', f'type({new_e})'}:
+                        same = v
+                    else:
+                        read = False
+                effs = sorted(e for ee in r.effects for e in ee.split('; '))
+                if r.outcome[0] not in ('fall', 'continue') or is_old is None or \
+                        any(not (e.startswith('SET X.parent := ') or e.startswith('SET X.yielding := ')) for e in effs):
+                    read = False
+                elif is_old is False:
+                    want = []
+                elif same is False:
+                    want = sorted(['SET X.parent := None', 'SET X.yielding := False'])
+                else:
+                    want = [f'SET X.parent := {new_e}']
+                if read and effs != want:
+                    wrong.append(f'{r!r}')
+            if read and tab.rows:
+                args: T.List[ast.expr] = [ast.parse(old_e, mode='eval').body, ast.parse(new_e, mode='eval').body]
+                if wrong:
+                    args.append(ast.Constant(value=wrong[0]))
+                blk[i] = ast.fix_missing_locations(ast.copy_location(ast.Expr(value=ast.Call(
+                    func=ast.Attribute(value=ast.Name(id='self', ctx=ast.Load()), attr='__repoint__', ctx=ast.Load()), args=args, keywords=[])), st))
 
 
 def _lower_trys(qn: str, stmts: T.List[ast.stmt], handlers: T.Dict[int, ast.ExceptHandler]) -> T.List[ast.stmt]:
@@ -1787,6 +1816,13 @@ def _r2a_impl(ctx: RuleCtx, wiring_mode: bool) -> None:
                                     '(`NEW.yielding` is never derived from `OLD.yielding`): a subproject option the user has given its own value '
                                     '(-Dsub:opt=v switches yielding off) follows the parent again after the option file changed, the user value is lost',
                                     store or rp.acts[0][1], want, w))
+                wrongs = [w_ for w_, _ in rp.acts if w_.startswith('wire NEW: repoint-wrong ')]
+                if wrongs:
+                    bad.setdefault('re-pointing loop: ' + wrongs[0][len('wire NEW: repoint-wrong '):],
+                                   ('re-points the options yielding to the replaced object, but one row of the loop is wrong: '
+                                    f'{wrongs[0][len("wire NEW: repoint-wrong "):]} (reference: a child of the new object\'s class gets `.parent = NEW` only; any '
+                                    'other child is detached with `.parent = None` and `.yielding = False`)', store or rp.acts[0][1], want, w))
+                    continue
                 if need <= done and 'repoint-children' not in done:
                     bad.setdefault('store NEW: options yielding to OLD not re-pointed',
                                    ('replaces the stored object but leaves every option whose `.parent` is the replaced object pointing at it: subproject options '
@@ -2043,7 +2079,7 @@ def _guard_of(pm: T.Dict[ast.AST, T.Tuple[ast.AST, str]], st: ast.AST) -> T.Opti
     return None
 
 
-def _restore_problems(fn: ast.AST, h: ast.ExceptHandler, cdf: str) -> T.Tuple[T.List[T.Tuple[str, str, ast.AST]], T.Optional[str], int]:
+def _restore_problems(fn: ast.AST, h: ast.ExceptHandler, cdf: str, may_be_none: bool = True) -> T.Tuple[T.List[T.Tuple[str, str, ast.AST]], T.Optional[str], int]:
     """Decision table of the handler body over (cdf is None, <prev> exists) -> problems, suffix, rows."""
     body = _renamed(h.body, {cdf: 'CDF'})
     tab = _ptable(body, lambda st: ('CALL ' + norm(st.value)) if isinstance(st, ast.Expr) and isinstance(st.value, ast.Call) else None,
@@ -2062,7 +2098,7 @@ def _restore_problems(fn: ast.AST, h: ast.ExceptHandler, cdf: str) -> T.Tuple[T.
                 continue
         raise Undecided(f'restore handler: condition outside the vocabulary: {a!r}')
     probs: T.List[T.Tuple[str, str, ast.AST]] = []
-    for none in (True, False):
+    for none in ((True, False) if may_be_none else (False,)):     # the handler can see "no coredata written" only if it also guards the dump
         for exists in (True, False):
             w = {a_none: none}
             if a_exists is not None:
@@ -2145,7 +2181,10 @@ def _r3_analyse(fn: ast.AST, qn: str) -> _R3Result:
             return False
         h = g[1]
         if h not in handlers_checked:
-            probs, suffix, nrows = _restore_problems(fn, h, cdf)
+            # can this handler run before the dump returned its file name?  only if some statement it guards is not dominated by the dump
+            may_be_none = any(not cfg.must_pass(cfg.entry, n, dump_nodes) for b in g[0].body for x in ast.walk(b) if isinstance(x, ast.stmt)
+                              for n in cfg.stmt_nodes(x) if cfg.is_reachable(n))
+            probs, suffix, nrows = _restore_problems(fn, h, cdf, may_be_none)
             handlers_checked[h] = not probs
             if suffix is not None:
                 res.suffix = suffix
@@ -2158,6 +2197,11 @@ def _r3_analyse(fn: ast.AST, qn: str) -> _R3Result:
     for c, kind in writers:
         st = _stmt_of(pm, c)
         res.writers += 1
+        if c is dumps[0]:
+            # the dump itself needs no rollback: if it fails no new coredata.dat was published (C08.R3d), and there is no file name to
+            # restore; what must be guarded is everything that runs after it
+            res.ok.append(f'{qn}: `{short(c, 60)}` publishes coredata.dat; the statements after it are checked')
+            continue
         okg = guarded(st, f'writer of {kind} `{short(c, 60)}`')
         if c is not dumps[0]:
             nodes = cfg.stmt_nodes(st)
@@ -2172,6 +2216,8 @@ def _r3_analyse(fn: ast.AST, qn: str) -> _R3Result:
     for nid in sorted(cfg.reachable(dump_nodes, edge_ok=lambda a, b, lab: lab != 'exc')):
         n = cfg.nodes[nid]
         e = n.expr()
+        if isinstance(e, ast.AnnAssign):
+            e = e.value            # annotations are not evaluated (from __future__ import annotations)
         if n.kind not in ('stmt', 'test', 'iter', 'with_enter') or e is None or n.ast in seen or not _may_raise(e):
             continue
         if isinstance(n.ast, ast.Raise) and n.ast.exc is None:
@@ -2839,6 +2885,198 @@ def r4b(ctx: RuleCtx) -> None:
 
 
 # ---------------------------------------------------------------------------
+# C08.R4c  cmd_line.txt [properties]: what read_cmd_line_file restores, write_cmd_line_file records (K5 writer/reader agreement)
+
+def r4c(ctx: RuleCtx) -> None:
+    mod = _m(ctx, CMDLINE)
+    rfn = _inlined(mod, 'read_cmd_line_file')
+    rparams = _pos_params(rfn)
+    keys: T.Set[str] = set()
+    for st in ast.walk(rfn):
+        if isinstance(st, ast.Assign) and len(st.targets) == 1 and isinstance(st.targets[0], ast.Attribute) and norm(st.targets[0].value) == rparams[1]:
+            for c in ast.walk(st.value):
+                if isinstance(c, ast.Call) and call_method(c) == 'get' and c.args and isinstance(c.args[0], ast.Constant) and c.args[0].value == st.targets[0].attr:
+                    keys.add(st.targets[0].attr)
+    if not keys:
+        raise Undecided('read_cmd_line_file: no `options.K = ...properties.get("K")...` restore found (written differently?)')
+    qn = 'write_cmd_line_file'
+    wfn = _inlined(mod, qn)
+    wparams = _pos_params(wfn)
+    if len(wparams) != 2:
+        raise Undecided(f'{qn}: expected (build_dir, options)')
+    body = _renamed(wfn.body, {wparams[0]: 'ARG1', wparams[1]: 'ARG2'}, wfn)
+    # the statement that fills the [properties] section, and the shape of its value
+    fills = [st for st in ast.walk(ast.Module(body=body, type_ignores=[])) if isinstance(st, ast.Assign) and len(st.targets) == 1
+             and isinstance(st.targets[0], ast.Subscript) and isinstance(st.targets[0].slice, ast.Constant) and st.targets[0].slice.value == 'properties']
+    table_rows: T.Optional[T.List[T.Tuple[str, str]]] = None      # (key, value expression) pairs of a literal table of pairs
+    src_dict: T.Optional[str] = None
+    filtered = False
+    if len(fills) == 1 and isinstance(fills[0].value, ast.Name):
+        # `D = {}; for k, v in N.items(): D[k] = f(v); config['properties'] = D`  (the loop form of the comprehension), or D filled directly
+        dname = fills[0].value.id
+        loops_ = [l for l in ast.walk(ast.Module(body=body, type_ignores=[])) if isinstance(l, ast.For) and _items_loop(l) is not None and len(l.body) == 1
+                  and isinstance(l.body[0], ast.Assign) and isinstance(l.body[0].targets[0], ast.Subscript) and norm(l.body[0].targets[0].value) == dname
+                  and norm(l.body[0].targets[0].slice) == _items_loop(l)[0]]  # type: ignore[index]
+        if len(loops_) == 1 and isinstance(_items_loop(loops_[0])[2], ast.Name):  # type: ignore[index]
+            fills = [ast.Assign(targets=fills[0].targets, value=ast.DictComp(key=ast.Name(id='k', ctx=ast.Load()), value=ast.Name(id='v', ctx=ast.Load()), generators=[
+                ast.comprehension(target=ast.Tuple(elts=[ast.Name(id='k', ctx=ast.Store()), ast.Name(id='v', ctx=ast.Store())], ctx=ast.Store()),
+                                  iter=ast.Call(func=ast.Attribute(value=_items_loop(loops_[0])[2], attr='items', ctx=ast.Load()), args=[], keywords=[]),  # type: ignore[index]
+                                  ifs=[], is_async=0)]))]
+    if len(fills) != 1 or not isinstance(fills[0].value, ast.DictComp) or len(fills[0].value.generators) != 1:
+        raise Undecided(f'{qn}: the [properties] section is not filled by one dict comprehension or its loop form (written differently?)')
+    comp = fills[0].value
+    g = comp.generators[0]
+    src = g.iter
+    if isinstance(src, ast.Call) and call_method(src) == 'items' and isinstance(src.func, ast.Attribute) and isinstance(src.func.value, ast.Name) and not g.ifs:
+        src_dict = src.func.value.id
+    else:
+        tdef = src
+        if isinstance(src, ast.Name):
+            ds = [st.value for st in ast.walk(ast.Module(body=body, type_ignores=[])) if isinstance(st, (ast.Assign, ast.AnnAssign)) and st.value is not None
+                  and norm(st.targets[0] if isinstance(st, ast.Assign) else st.target) == src.id]
+            tdef = ds[0] if len(ds) == 1 else src
+        if isinstance(tdef, (ast.Tuple, ast.List)) and all(isinstance(e, ast.Tuple) and len(e.elts) == 2 and isinstance(e.elts[0], ast.Constant) for e in tdef.elts) \
+                and isinstance(g.target, ast.Tuple) and len(g.target.elts) == 2 and norm(comp.key) == norm(g.target.elts[0]) \
+                and (not g.ifs or [norm(i) for i in g.ifs] == [norm(g.target.elts[1])]):
+            table_rows = [(e.elts[0].value, norm(e.elts[1])) for e in tdef.elts]  # type: ignore[attr-defined]
+            filtered = bool(g.ifs)
+    if src_dict is None and table_rows is None:
+        raise Undecided(f'{qn}: source of the [properties] section not understood: {short(src, 60)}')
+    tab = _ptable(body, _r1_eff, keep={src_dict} if src_dict else (), name=qn)
+    sem: T.Dict[Atom, str] = {}
+    for a in tab.atoms():
+        t = a.args[0] if a.kind == 'truth' else ''
+        if t.startswith('bool(') and t.endswith(')'):
+            t = t[5:-1]                      # bool(x) and x are the same truth test
+        if a.kind == 'truth' and t.startswith('ARG2.') and t[5:].isidentifier():
+            sem[a] = t[5:]
+        else:
+            raise Undecided(f'{qn}: condition outside the vocabulary: {a!r}')
+    for k in sorted(keys):
+        sem.setdefault(Atom('truth', (f'ARG2.{k}',)), k)
+    bad: T.Dict[str, T.Tuple[str, ast.AST]] = {}
+    nworlds = 0
+    for w in tab.worlds(list(sem)):
+        rows = tab.fire(w)
+        if not rows:
+            raise Undecided(f'{qn}: no row fires')
+        given_of: T.Dict[str, bool] = {}
+        consistent = True
+        for a, v in w.items():
+            if sem[a] in given_of and given_of[sem[a]] != v:
+                consistent = False           # bool(x) and x disagree: not a world
+            given_of[sem[a]] = v
+        if not consistent:
+            continue
+        nworlds += 1
+        for r in rows:
+            effs = [e.strip() for ee in r.effects for e in ee.split('; ')]
+            for k in sorted(keys):
+                given = given_of[k]
+                if table_rows is not None:
+                    ent = [v for kk, v in table_rows if kk == k]
+                    if any(v != f'ARG2.{k}' for v in ent):
+                        raise Undecided(f'{qn}: the table records `{ent[0]}` under {k!r}')
+                    recorded = bool(ent) and (given or not filtered)
+                else:
+                    recs = [e for e in effs if e.startswith(f'SET {src_dict}[') and f"[{k!r}] := " in e]
+                    if any(not e.endswith(f':= ARG2.{k}') for e in recs):
+                        raise Undecided(f'{qn}: `{recs[0][4:]}` records something else than options.{k}')
+                    others_ = [e for e in effs if e.startswith(f'SET {src_dict}[') and not any(f"[{kk!r}] := " in e for kk in keys)]
+                    if others_ and not recs:
+                        raise Undecided(f'{qn}: `{others_[0][4:]}`: key not understood')
+                    recorded = bool(recs)
+                if given and not recorded:
+                    others = ', '.join(f'{kk}={"set" if v else "unset"}' for kk, v in sorted(given_of.items()) if kk != k)
+                    bad.setdefault(f'{k} not recorded when {others or "always"}',
+                                   (f'with options.{k} set ({others}) the [properties] section does not record `{k}`, but read_cmd_line_file restores '
+                                    f'options.{k} from it: `setup --wipe` forgets the machine files given as --{k.replace("_", "-")}', _row_node(r, wfn)))
+    for c, (m, node) in bad.items():
+        ctx.violation(mod, qn, c, m, node)
+    if not bad:
+        ctx.ok(f'{qn}: each of {sorted(keys)} is recorded exactly when it is set, on {nworlds} worlds (read_cmd_line_file restores them)')
+
+
+# ---------------------------------------------------------------------------
+# C08.R4d  the interpreter of a (re)configuration is given the recorded command line merged with the current one (K1)
+
+def _r4d_analyse(fn: ast.AST, qn: str, caller_merges: bool) -> T.Tuple[T.List[str], T.List[T.Tuple[str, str, ast.AST]]]:
+    cfg = CFG(fn)  # type: ignore[arg-type]
+    oks: T.List[str] = []
+    bad: T.List[T.Tuple[str, str, ast.AST]] = []
+    interps = [c for c in walk_no_nested(fn) if isinstance(c, ast.Call) and call_method(c) == 'Interpreter']
+    if not interps:
+        raise Undecided(f'{qn}: no Interpreter(...) construction found (written differently?)')
+    defs = _single_defs(fn)
+    for ic in interps:
+        x = next((k.value for k in ic.keywords if k.arg == 'user_defined_options'), ic.args[1] if len(ic.args) > 1 else None)
+        if not isinstance(x, ast.Name):
+            raise Undecided(f'{qn}: options handed to the interpreter are not a local: {short(ic, 70)}')
+        inodes = cfg.node_containing(ic)
+        # names denoting the same object: x = y, x = T.cast('...', y)
+        def plain(v: ast.AST) -> T.Optional[str]:
+            if isinstance(v, ast.Call) and call_method(v) == 'cast' and len(v.args) == 2:
+                v = v.args[1]
+            return v.id if isinstance(v, ast.Name) else None
+        alias = {x.id}
+        for _ in range(4):
+            alias |= {n for n, v in defs.items() if plain(v) in alias} | {plain(defs[n]) for n in alias if n in defs and plain(defs[n])}  # type: ignore[misc]
+        reads = cfg.nodes_with_call(lambda c: call_method(c) == 'read_cmd_line_file' and len(c.args) == 2 and norm(c.args[1]) in alias)
+        if reads and all(cfg.must_pass(cfg.entry, n, reads) for n in inodes if cfg.is_reachable(n)):
+            oks.append(f'{qn}: `{short(ic, 60)}` runs only after read_cmd_line_file(…, {x.id}) merged the recorded command line')
+            continue
+        roots = [n for n in alias if n in defs and plain(defs[n]) is None]
+        src = defs.get(roots[0]) if len(roots) == 1 else None
+        from_self = src is not None and 'self.options' in {attr_chain(n) for n in ast.walk(src) if isinstance(n, ast.Attribute)}
+        if not reads and from_self and caller_merges:
+            oks.append(f'{qn}: `{x.id}` is built from self.options, into which every caller merges the recorded command line first')
+            continue
+        takers = [c for c in walk_no_nested(fn) if isinstance(c, ast.Call) and c is not ic and call_method(c) not in ('read_cmd_line_file', 'format_cmd_line_options', 'cast')
+                  and any(isinstance(a, ast.Name) and a.id in alias for a in list(c.args) + [k.value for k in c.keywords])
+                  and any(cfg.can_reach(n, m) for n in cfg.node_containing(c) for m in inodes)]
+        if takers or src is None:
+            raise Undecided(f'{qn}: `{short(takers[0], 60) if takers else x.id}` may merge the recorded command line; not understood')
+        bad.append((f'Interpreter(user_defined_options={x.id}) without read_cmd_line_file',
+                    f'`{x.id} = {short(src, 60)}` is handed to the interpreter ' + ('on a path that does not pass' if reads else 'and nothing merges') +
+                    f' the recorded command line (cmdline.read_cmd_line_file(self.build_dir, {x.id})): on --reconfigure a subproject configured for the first '
+                    'time does not see the -D values given at an earlier setup', ic))
+    return oks, bad
+
+
+_R4D_EXAMPLE = '''
+def _generate(self, env):
+    user_defined_options = argparse.Namespace(**vars(self.options))
+    b = build.Build(env)
+    intr = interpreter.Interpreter(b, user_defined_options=user_defined_options)
+'''
+
+
+def r4d(ctx: RuleCtx) -> None:
+    _, exbad = _r4d_analyse(ast.parse(_R4D_EXAMPLE).body[0], 'example', False)
+    if not exbad:
+        raise AnalysisError('C08.R4d: built-in positive example (interpreter without the recorded command line) was not flagged')
+    mod = _m(ctx, MSETUP)
+    qn = 'MesonApp._generate'
+    fn = _inlined(mod, qn)
+    # do all same-class callers merge the recorded command line into self.options before calling?
+    callers = [(n, f) for n, f in mod.methods('MesonApp').items() if n != '_generate' and
+               any(isinstance(c, ast.Call) and call_name(c) == 'self._generate' for c in ast.walk(f))]
+    caller_merges = bool(callers)
+    for n, _f in callers:
+        cf = _inlined(mod, f'MesonApp.{n}')
+        ccfg = CFG(cf)
+        rd = ccfg.nodes_with_call(lambda c: call_method(c) == 'read_cmd_line_file' and len(c.args) == 2 and norm(c.args[1]) == 'self.options')
+        gen = ccfg.nodes_with_call(lambda c: call_name(c) == 'self._generate')
+        if not (rd and all(ccfg.must_pass(ccfg.entry, g, rd) for g in gen)):
+            caller_merges = False
+    oks, bad = _r4d_analyse(fn, qn, caller_merges)
+    for o in oks:
+        ctx.ok(o)
+    for c, m, node in bad:
+        ctx.violation(mod, qn, c, m, node)
+
+
+# ---------------------------------------------------------------------------
 # C08.R5  per-subproject inputs
 
 class _Site:
@@ -3203,6 +3441,8 @@ RULES = [
     Rule('C08.R3c', 'setup: cmd_line.txt is not left rewritten by a failing configuration', r3c),
     Rule('C08.R4', '--wipe: backup + read before deleting, restore in finally', r4),
     Rule('C08.R4b', 'read_cmd_line_file: current command line overrides the recorded one', r4b),
+    Rule('C08.R4c', 'cmd_line.txt: every machine-file property that is restored is recorded when set', r4c),
+    Rule('C08.R4d', 'setup: the interpreter sees the recorded command line merged with the current one', r4d),
     Rule('C08.R5a', 'mconf: recorded option file of the subproject is the one reloaded', r5a),
     Rule('C08.R5b', 'mconf: no recorded file - nothing foreign is loaded for the subproject', r5b),
     Rule('C08.R5c', 'interpreter: option file comes from the subproject directory', r5c),
